@@ -176,6 +176,30 @@ class Scen:
                 if a < q: self.emit('%s.fragment(%d, %d%s)' % (f, a, q - a, self.rawarg()), [dict(src=s_, dst=d_, off=a, mf=True, l4=None, eth='ip', **o)])
             self.emit('%s.fragment(%d, 1%s)' % (f, q, self.rawarg()), [dict(src=s_, dst=d_, off=q, mf=False, l4=None, eth='ip', **o)])
             self.emit('%s.tail(%d%s)' % (f, q, self.rawarg()), [dict(src=s_, dst=d_, off=q, mf=False, l4=None, eth='ip', **o)])
+    def nonemit(self):
+        """every call that returns bytes without emitting (raw datagrams / segments, bare headers), each followed by emitting calls in
+        both directions on the same flow: the flow's framing, addresses and ports are as before"""
+        r = self.r
+        for call in ('client_raw_dgram("|0102|")', 'server_raw_dgram("|0102|")', 'client_raw_dgram(csum: false, "x")', 'server_raw_dgram(csum: false)'):
+            cl = (addr(r), r.below(65536)); sv = (addr(r), r.below(65536))
+            self.n += 1; f = 'u%d' % self.n
+            self.decl.append('let %s = ipv4::udp::flow(%s:%d, %s:%d%s);' % (f, ip(cl[0]), cl[1], ip(sv[0]), sv[1], self.rawarg()))
+            a = dict(src=cl[0], dst=sv[0], sport=cl[1], dport=sv[1]); b_ = dict(src=sv[0], dst=cl[0], sport=sv[1], dport=cl[1])
+            base = dict(proto=17, id=0, ttl=64, off=0, evil=False, df=False, mf=False, l4=('udp', True), eth='ip')
+            self.emit('%s.client_dgram("before")' % f, [dict(base, **a)])
+            self.n += 1; self.stmts.append('let q%d = %s.%s;' % (self.n, f, call))
+            self.emit('%s.client_dgram("after")' % f, [dict(base, **a)])
+            self.emit('%s.server_dgram("after")' % f, [dict(base, **b_)])
+        for call in ('client_raw_segment("ab")', 'server_raw_segment("ab")', 'client_hdr()', 'server_hdr()', 'client_hdr(bytes: 7)', 'server_hdr(bytes: 7)'):
+            cl = (addr(r), r.below(65536)); sv = (addr(r), r.below(65536))
+            self.n += 1; f = 't%d' % self.n
+            self.decl.append('let %s = ipv4::tcp::flow(%s:%d, %s:%d%s);' % (f, ip(cl[0]), cl[1], ip(sv[0]), sv[1], self.rawarg()))
+            c2s = dict(src=cl[0], dst=sv[0]); s2c = dict(src=sv[0], dst=cl[0])
+            base = dict(proto=6, id=0, ttl=64, off=0, evil=False, df=False, mf=False, l4='tcp', eth='ip')
+            self.emit('%s.client_segment("before")' % f, [dict(base, **c2s)])
+            self.n += 1; self.stmts.append('let q%d = %s.%s;' % (self.n, f, call))
+            self.emit('%s.client_segment("after")' % f, [dict(base, **c2s)])
+            self.emit('%s.server_segment("after")' % f, [dict(base, **s2c)])
     def drop_empty(self, stmt):
         """an empty payload may also be given by passing no payload argument at all"""
         if '.echo' in stmt or not self.r.chance(1, 2): return stmt
@@ -327,6 +351,7 @@ def build(r, raw, kinds=None, quick=True):
         else: s.tcp(96)
         del SWEEP[:]
     elif k == 'opt-grid': s.optgrid()
+    elif k == 'non-emitting': s.nonemit()
     elif k == 'addr-sum-tcp': s.addrsum(6)
     elif k == 'addr-sum-udp': s.addrsum(17)
     elif k == 'frag-edge': s.fragedge()
